@@ -189,6 +189,16 @@ macro_rules! axis_angle {
             )*
             let v = <$V2>::from_angle(ang);
             env_vec(acc, &format!("{}::from_angle", stringify!($V2)), &[v.x as f64, v.y as f64], &[c, s], &[4.0 * <$S>::EPSILON as f64], &ctx);
+            // to_angle: the angle of the vector in [-pi, pi] (atan2(y, x)), for unit and scaled vectors
+            for scale in [1.0 as $S, 37.5, 1e-3] {
+                let w = v * scale;
+                let want = (w.y as f64).atan2(w.x as f64);
+                let got = w.to_angle() as f64;
+                // +-pi are the same direction: compare on the circle
+                let d = (got - want).abs();
+                let d = d.min((d - 2.0 * std::f64::consts::PI).abs());
+                env(acc, &format!("{}::to_angle", stringify!($V2)), d, 0.0, 8.0 * <$S>::EPSILON as f64, &|| format!("v={:?} got={:e} want={:e}", w, got, want));
+            }
         });
     }};
 }
